@@ -53,5 +53,8 @@ contract(P + 'remove_if_complete',
                  'and itask.identity == self.stop_task_id, self.stop_task_finished)',
          },
          modifies=['all:[*]', 'self.active_tasks_changed', 'self.tasks_removed', 'itask.transient',
-                   'self.stop_task_finished'],
+                   'self.stop_task_finished',
+                   # TaskPool.remove drops the held state of the task it removes
+                   'itask.state.is_held', 'itask.state.is_queued', 'itask.state.time_updated',
+                   'itask.state.is_updated', 'itask.state.kill_failed'],
          props=['C11', 'C43'])
